@@ -1313,7 +1313,7 @@ func genPrune(r *Rng) Sx {
 func gen(r *Rng, tier string, emit func(Sx)) {
 	nBlock, nLong, nIndex, nBad, nBadStore := 260, 16, 20, 400, 50
 	if tier == "thorough" {
-		nBlock, nLong, nIndex, nBad, nBadStore = 8000, 600, 800, 10000, 1200
+		nBlock, nLong, nIndex, nBad, nBadStore = 4000, 300, 150, 6000, 600
 	}
 	for i := 0; i < nBlock; i++ {
 		emit(genBlock(r, false))
